@@ -31,6 +31,7 @@ type InvStats struct {
 	MembershipDocs  int64
 	OrderPairs      int64
 	Rebuilds        int64
+	EntriesCompared int64
 	UniquePairs     int64
 	PartialFiltered int64
 	MultikeyDocs    int64
@@ -219,6 +220,30 @@ func CheckCollection(name string, ns *mongokit.Collection, needID bool, st *InvS
 				}
 				if !same {
 					add("index-differs-from-rebuild", "index %q lists %v but an index rebuilt from scratch lists %v (positions in the collection)", n, positions(list, pos), positions(fl, pos))
+				}
+				// entry level (hook VerifEntries): the tree holds exactly the
+				// entries a rebuild produces - one per key tuple of each member,
+				// no entry for a key a document no longer has, in the same order
+				k1, d1 := idx.VerifEntries()
+				k2, d2 := fresh.VerifEntries()
+				if st != nil {
+					st.EntriesCompared += int64(len(k2))
+				}
+				if len(k1) != len(k2) {
+					add("index-entries-differ-from-rebuild", "index %q has %d tree entries, an index rebuilt from scratch over the current documents %d (stale or missing multikey entries)", n, len(k1), len(k2))
+				} else {
+					for i := range k1 {
+						same := d1[i] == d2[i] && len(k1[i]) == len(k2[i])
+						for j := 0; same && j < len(k1[i]); j++ {
+							if bsonkit.Compare(k1[i][j], k2[i][j]) != 0 {
+								same = false
+							}
+						}
+						if !same {
+							add("index-entries-differ-from-rebuild", "index %q: tree entry %d differs from the one of an index rebuilt from scratch (document %s)", n, i, gen.JSON(*d1[i]))
+							break
+						}
+					}
 				}
 				// Has answers
 				for _, d := range set.List {
